@@ -164,7 +164,7 @@ pub fn tape_checks(ctx: &Ctx) -> Vec<(&'static str, Box<CheckFn<'_>>)> {
 		(
 			"slice",
 			Box::new(move |g: &mut Gen, stats: &mut Stats| {
-				let e = *g.pick(&decs);
+				let e = pick_entry(g, &decs);
 				let (mut bytes, family) = gen_input(&e.ty, g, 128);
 				if e.is_recursive() && bytes.len() > 256 {
 					bytes.truncate(256);
@@ -175,7 +175,7 @@ pub fn tape_checks(ctx: &Ctx) -> Vec<(&'static str, Box<CheckFn<'_>>)> {
 		(
 			"stack",
 			Box::new(move |g: &mut Gen, stats: &mut Stats| {
-				let e = *g.pick(&decs2);
+				let e = pick_entry(g, &decs2);
 				let (mut bytes, _) = gen_input(&e.ty, g, 128);
 				if e.is_recursive() && bytes.len() > 256 {
 					bytes.truncate(256);
